@@ -243,6 +243,16 @@ class World:
         got = self.observe(o, sid)
         return self.finish_recv('wu', sid, want, got, o), o
 
+    def recv_window_update_overflow(self, sid):
+        """WINDOW_UPDATE that pushes the stream's send window past 2^31-1 (the window is assumed to be within
+        65535 of its initial value): a stream error FLOW_CONTROL_ERROR, which closes the stream (RFC 7540 s6.9.1)."""
+        want = self.m.recv_window_update_verdict(sid)
+        if M.ACCEPT in want:
+            want = {M.S(wire.FLOW_CONTROL_ERROR), M.C(wire.FLOW_CONTROL_ERROR)}
+        o = self.s.feed(wire.window_update(sid, 2 ** 31 - 1))
+        got = self.observe(o, sid)
+        return self.finish_recv('wu-overflow', sid, want, got, o), o
+
     def recv_push(self, parent, promised, hdrs=None, invalid_list=False):
         want = self.m.recv_push_verdict(parent, promised)
         if invalid_list:
